@@ -499,6 +499,23 @@ class Calls(DataModels):
             I.ghost.clear()
             I.ghost.update(saved_ghost)
 
+    def _assume_post(self, I, c, text, fr, extra, site=None):
+        """assume one postcondition of a contracted callee at a call site.  A clause that is literally false ends
+        the path (legitimate when the path forked on a havocked optional the clause excludes); call sites at which
+        EVERY path ends this way are reported after the exploration: the callee's contract does not fit the call
+        and everything after it would be vacuously proved"""
+        if text.startswith('@check '):
+            return           # proved where the function is verified, not expressible on a freshly shaped result (object identity)
+        g = I.as_goal(I.pure_eval(text, fr, extra))
+        if z3.is_false(z3.simplify(g)):
+            st = self.__dict__.setdefault('site_stats', {}).setdefault(site or (c.qualname, None), [0, 0, text])
+            st[1] += 1
+            raise PathEnd()
+        I.ctx.assume(g)
+
+    def _site_ok(self, c, site):
+        self.__dict__.setdefault('site_stats', {}).setdefault(site or (c.qualname, None), [0, 0, ''])[0] += 1
+
     def _apply_contract(self, I, c, fr, ln, node):
         from .stmts import gsub
         for g, e in c.ghost.items():
@@ -544,7 +561,7 @@ class Calls(DataModels):
                     I.ctx.assume(kx >= 0)
                     I.ghost['_G_k%d' % o] = kx
                 for e in c.ensures:
-                    I.ctx.assume(I.as_goal(I.pure_eval(e, fr)))
+                    self._assume_post(I, c, e, fr, None, (c.qualname, ln))
                 ys = c.yield_shape
                 if callable(ys) and not hasattr(ys, 'make'):
                     ys = ys(**fr.env)          # shape chosen from the (concrete parts of the) arguments
@@ -569,7 +586,8 @@ class Calls(DataModels):
                     I.old_frame = old
                     try:
                         for e in c.each_yield:
-                            I.ctx.assume(I.as_goal(I.pure_eval(e, fr, {'value': v})))
+                            outer._assume_post(I, c, e, fr, {'value': v}, (c.qualname, 'element'))
+                        outer._site_ok(c, (c.qualname, 'element'))
                     finally:
                         I.ghost.clear()
                         I.ghost.update(saved)
@@ -583,7 +601,8 @@ class Calls(DataModels):
             if c.result_expr is not None:
                 res = I.pure_eval(c.result_expr, fr)
                 for e in c.ensures:
-                    I.ctx.assume(I.as_goal(I.pure_eval(e, fr, {'result': res})))
+                    self._assume_post(I, c, e, fr, {'result': res}, (c.qualname, ln))
+                self._site_ok(c, (c.qualname, ln))
                 return res
             if c.returns is None and any(re.search(r'\bresult\b', e) for e in c.ensures):
                 raise Unsupported('contract %s constrains `result` but declares no `returns` shape' % c.qualname)
@@ -600,13 +619,14 @@ class Calls(DataModels):
                     target.attrs[k] = I.pure_eval(e, fr)
             for e in c.ensures:
                 try:
-                    I.ctx.assume(I.as_goal(I.pure_eval(e, fr, {'result': res})))
+                    self._assume_post(I, c, e, fr, {'result': res}, (c.qualname, ln))
                 except Unsupported as ex:
                     if 'may raise' not in str(ex):
                         raise
                     # a postcondition that cannot be evaluated for this result shape is simply not
                     # assumed at this call site (weaker assumption: sound)
                     I.assumptions.add('call site of %s: postcondition %r not usable (not evaluable here)' % (c.qualname, e[:60]))
+            self._site_ok(c, (c.qualname, ln))
             return res
         finally:
             I.old_frame = prev_old
